@@ -200,7 +200,7 @@ ADD11 = {
  "C09": " The closed channel is closed in Close only and nothing in the package calls Close on an association; the loop releases a datagram itself only where it has no source address; every wait for a datagram watches deadline and close. KNOWN FINDING (C09.R23, recorded, not repaired): a datagram arriving after its association has ended, before the loop has processed the notice, is dropped instead of starting a fresh association.",
  "C10": " round_robin's position is a field of the policy instance; the failure counter moves by +1/-1 only.",
  "C11": " The active checker's start depends on no other presence test than health_checks and active; Cleanup, evaluated on handlers provisioned 2+1, 2+0, 1+0 and 0+0 addresses far, releases exactly the table entries provisioning stored.",
- "C12": " Every placeholder WrapConnection derives from the connection's addresses is set again from the new connection before it is handed on; all allow lines of a Caddyfile block add up; prefetch keeps its bytes in storage of its own. KNOWN FINDING (C12.R17, recorded, not repaired): after a v1 'PROXY UNKNOWN' header the library's wrapper reports ':0' and the handler hands it on without looking at the header.",
+ "C12": " Every placeholder WrapConnection derives from the connection's addresses is set again from the new connection before it is handed on; all allow lines of a Caddyfile block add up; prefetch keeps its bytes in storage of its own. After a v1 header that declares no addresses (PROXY UNKNOWN) the connection handed on reads through the library's wrapper and answers with the addresses of the connection below (Handle evaluated with three kinds of header).",
  "C13": " A handler that hands on a new connection builds it on the connection it was given; nothing a matcher does writes into the matching buffer.",
  "C14": " In a matcher's Provision the loop over one configured list is not guarded by the emptiness of another (both lists given: both apply); a SOCKS5 greeting offers at least one method. The address tested against the ranges has had its IPv6 zone removed; the dns rules are given the question name lower-cased and are consulted only about questions whose class and type lookups both succeeded; winbox user names of one, two and three characters.",
  "C15": " A field's map written by a parser is made or found non-nil on every path to the write. KNOWN FINDING (C15.R20, recorded, not repaired): the documented `cert_selection { public_key_algorithm rsa }` adapts to JSON that does not load (caddytls.PublicKeyAlgorithm reads names, is written as a number).",
